@@ -282,6 +282,9 @@ type Sym struct {
 	// Expand: static in-module callees whose boolean result is expanded into
 	// the callee's own path conditions (loop-free callees only).
 	Expand  bool
+	// ExpandReturns: in decision tables an exit that returns the result of a
+	// loop-free helper of the module is replaced by the helper's own exits.
+	ExpandReturns bool
 	ord     map[*ssa.Function]map[ssa.Value]string
 	stored  map[*ssa.Function]map[string]bool
 	loops   map[*ssa.Function]map[*ssa.BasicBlock]map[*ssa.BasicBlock]bool
@@ -1366,22 +1369,103 @@ type retRow struct {
 // retTable lists the exits of a loop-free function with the condition of
 // each and the idx-th result returned there.
 func (s *Sym) retTable(fn *ssa.Function, idx int) []retRow {
+	return s.retTableCtx(fn, idx, nil, 0)
+}
+
+// Resolve follows a parameter of an expanded callee back to the argument it
+// was given (see ExpandReturns).
+func (s *Sym) Resolve(v ssa.Value, ctx *symCtx) ssa.Value {
+	for ctx != nil && ctx.call != nil {
+		p, ok := v.(*ssa.Parameter)
+		if !ok {
+			return v
+		}
+		cc := ctx.call.Common()
+		fn := cc.StaticCallee()
+		if fn == nil || p.Parent() != fn {
+			return v
+		}
+		idx := -1
+		for i, q := range fn.Params {
+			if q == p {
+				idx = i
+			}
+		}
+		if idx < 0 || idx >= len(cc.Args) {
+			return v
+		}
+		v = cc.Args[idx]
+		ctx = ctx.parent
+	}
+	return v
+}
+
+func (s *Sym) retTableCtx(fn *ssa.Function, idx int, ctx *symCtx, depth int) []retRow {
 	var out []retRow
+	forwards := false
+	add := func(cond *pcF, v ssa.Value, pos token.Pos) {
+		// an exit that hands on what a helper of the module returns: the helper's own exits
+		if s.ExpandReturns && depth < 2 && forwards {
+			var call *ssa.Call
+			j := 0
+			switch x := v.(type) {
+			case *ssa.Call:
+				call = x
+			case *ssa.Extract:
+				if c, ok := x.Tuple.(*ssa.Call); ok {
+					call, j = c, x.Index
+				}
+			}
+			if call != nil {
+				g := call.Call.StaticCallee()
+				recursive := g == fn
+				for c := ctx; c != nil; c = c.parent {
+					if c.call != nil && c.call.Common().StaticCallee() == g {
+						recursive = true
+					}
+				}
+				if g != nil && !recursive && g.Blocks != nil && len(g.Blocks) <= 60 && len(ssaLoops(g)) == 0 && strings.HasPrefix(pkgPathOf(g), modPath) && j < g.Signature.Results().Len() {
+					nctx := &symCtx{call: call, parent: ctx}
+					for _, r := range s.retTableCtx(g, j, nctx, depth+1) {
+						out = append(out, retRow{pcAndF(cond, r.cond), r.val, r.pos})
+					}
+					return
+				}
+			}
+		}
+		out = append(out, retRow{cond, s.Resolve(v, ctx), pos})
+	}
 	for _, b := range fn.Blocks {
 		ret, ok := b.Instrs[len(b.Instrs)-1].(*ssa.Return)
 		if !ok || len(ret.Results) <= idx || b == fn.Recover {
 			continue
 		}
 		v := unspill(ret.Results[idx])
+		// `return helper(...)`: every result is the corresponding result of one call
+		forwards = false
+		if len(ret.Results) == 1 {
+			_, forwards = v.(*ssa.Call)
+		} else {
+			var tup ssa.Value
+			forwards = true
+			for k, rv := range ret.Results {
+				ex, ok := unspill(rv).(*ssa.Extract)
+				if !ok || ex.Index != k || (tup != nil && ex.Tuple != tup) {
+					forwards = false
+					break
+				}
+				tup = ex.Tuple
+			}
+		}
 		if phi, ok := v.(*ssa.Phi); ok && phi.Block() == b {
 			// one return statement fed by several assignments: split
 			for i, e := range phi.Edges {
 				pred := b.Preds[i]
-				out = append(out, retRow{pcAndF(s.PathCond(fn.Blocks[0], pred, nil), s.edgeCond(pred, b, nil)), e, ret.Pos()})
+				add(pcAndF(s.PathCond(fn.Blocks[0], pred, ctx), s.edgeCond(pred, b, ctx)), e, ret.Pos())
 			}
 			continue
 		}
-		out = append(out, retRow{s.PathCond(fn.Blocks[0], b, nil), v, ret.Pos()})
+		add(s.PathCond(fn.Blocks[0], b, ctx), v, ret.Pos())
 	}
 	return out
 }
